@@ -39,6 +39,10 @@ pub struct ParCase {
     /// they reach the plugin around the instant the payment is decided
     #[serde(default)]
     pub late: Vec<(u8, u16)>,
+    /// set 0 consists of this many HTLCs instead, each carrying 1/funded_after of the total (rounded up): the
+    /// set is funded after `funded_after` of them, the rest is surplus that arrives while the payment is made
+    #[serde(default)]
+    pub big: Option<(u16, u16)>,
 }
 
 struct Staller {
@@ -71,7 +75,7 @@ pub fn par_strategy() -> impl Strategy<Value = ParCase> {
             // construction, not rejection: late HTLCs are mapped onto the sets that pay out
             let good: Vec<u8> = (0..sets.len() as u8).filter(|i| sets[*i as usize].1).collect();
             let late = if good.is_empty() { vec![] } else { late.into_iter().map(|(k, d)| (good[(k as usize * good.len()) >> 8], d)).collect() };
-            ParCase { sets, yields, stall_mask: m1 & m2, stall_us, order, late }
+            ParCase { sets, yields, stall_mask: m1 & m2, stall_us, order, late, big: None }
         })
 }
 
@@ -205,6 +209,13 @@ pub fn par_case(prop: &'static str) -> impl Fn(&ParCase) -> CaseReport + Sync {
             .collect();
         let mut htlcs = vec![];
         for (i, (parts, _)) in c.sets.iter().enumerate() {
+            if let (0, Some((n, funded_after))) = (i, c.big) {
+                let a = need.div_ceil(funded_after.max(1) as u64);
+                for _ in 0..n {
+                    htlcs.push(HtlcSpec { pay: 0, hash_of: None, amount_msat: a, total_msat: Some(need), forward_msat: Some(a), cltv_expiry: 1000 + 1200, cltv_rel: 1100, forward: false, meta: Meta::Normal, extra: vec![], raw_payload: None });
+                }
+                continue;
+            }
             let n = *parts as u64;
             for k in 0..n {
                 let a = if k + 1 == n { need - (need / n) * (n - 1) } else { need / n };
@@ -382,6 +393,9 @@ pub fn par_case(prop: &'static str) -> impl Fn(&ParCase) -> CaseReport + Sync {
         if !c.late.is_empty() {
             rep.classes.push("htlcs_arriving_around_the_decision".into());
         }
+        if let Some((n, _)) = c.big {
+            rep.classes.push(format!("one_hash_with_{}_or_more_htlcs", (n / 100) * 100));
+        }
         if c.stall_us > 0 && c.stall_mask != 0 {
             rep.classes.push("log_call_sites_stalled".into());
         }
@@ -400,6 +414,15 @@ pub fn par_phase(s: &mut Session, prop: &'static str) {
     s.regress::<ParCase, _>("par", par_case(prop));
     let n = s.tier.pick(60, 1200);
     s.search("parallel-same-instant-arrival", "par", n, par_strategy, par_case(prop));
+    if matches!(prop, "C02" | "C07") {
+        // long histories: one payment funded by hundreds of HTLCs (parts arrive over many channels), most of them surplus
+        let big = |n: u16, f: u16, stall: u16| ParCase { sets: vec![(1, true), (2, true)], yields: 1, stall_mask: 0xffff, stall_us: stall, order: 7, late: vec![], big: Some((n, f)) };
+        let mut cases = vec![big(520, 40, 0), big(700, 300, 0)];
+        if s.tier == Tier::Thorough {
+            cases.extend([big(1500, 20, 0), big(484, 483, 0), big(600, 100, 300)]);
+        }
+        s.enumerate("parallel-hundreds-of-htlcs-per-hash", "par", cases, par_case(prop));
+    }
     s.shrink_iters = keep;
 }
 
